@@ -2,7 +2,8 @@
    property theorems only (model: Types/StructModel.v; tie to the code: verdict
    comparison on generated conditions, Types/StructCheck.v + harness c12). *)
 From Coq Require Import List NArith ZArith Bool.
-From YV Require Import Types.StructModel Types.StructModelProofs.
+From Coq Require Import String.
+From YV Require Import Types.StructModel Types.StructModelProofs Gen.ProtoSchema Types.StructCheck Types.ProtoSchemaProofs.
 Import ListNotations.
 Local Open Scope Z_scope.
 
@@ -35,7 +36,7 @@ Print Assumptions absent_message_array_empty.
 Theorem index_stable_under_enum_fields : forall fs n f extra1 extra2,
   find_field n fs = Some f ->
   exists i, index_of n (ct_names fs extra1) = Some i /\ index_of n (ct_names fs extra2) = Some i /\
-            nth_error (visible fs) i = Some f /\ (i < length (visible fs))%nat.
+            nth_error (visible fs) i = Some f /\ (i < List.length (visible fs))%nat.
 Proof. exact index_stable_lemma. Qed.
 Print Assumptions index_stable_under_enum_fields.
 
@@ -67,7 +68,7 @@ Print Assumptions absent_message_is_undefined.
    maps: with distinct keys, the entries in reflection (insertion) order *)
 Theorem len_and_iteration_order :
   (forall ct enums syn e present l,
-     res_of (new_value ct enums syn (TArr e) present (Some (VArr l))) = RObjArr (length l) /\
+     res_of (new_value ct enums syn (TArr e) present (Some (VArr l))) = RObjArr (List.length l) /\
      forall i x, nth_error l i = Some x ->
        run [OIndex (Z.of_nat i)] (new_value ct enums syn (TArr e) present (Some (VArr l))) =
        res_of (new_value ct enums syn e true (Some x))) /\
@@ -75,13 +76,46 @@ Theorem len_and_iteration_order :
      keys_distinct (map (fun kv => conv_key k (fst kv)) l) = true ->
      new_value ct enums syn (TMap k vt) present (Some (VMap l)) =
      RMap false (map (fun kv => (conv_key k (fst kv), new_value ct enums syn vt true (Some (snd kv)))) l) /\
-     res_of (new_value ct enums syn (TMap k vt) present (Some (VMap l))) = RObjMap (length l)).
+     res_of (new_value ct enums syn (TMap k vt) present (Some (VMap l))) = RObjMap (List.length l)).
 Proof.
   split.
   - intros. destruct (array_len_and_order ct enums syn e present l) as [_ [H1 H2]]. split; assumption.
   - intros. now apply map_len_and_order.
 Qed.
 Print Assumptions len_and_iteration_order.
+
+(* ---- at the schemas generated from lib/src/modules/protos/*.proto ---- *)
+(* every generated module schema is well-formed: visible field names distinct
+   from each other and from the generated enum fields, field numbers distinct,
+   every visible field of every (nested) message at its field-number position
+   in the compile-time structure; name tables without duplicates *)
+Theorem generated_schemas_well_formed : forall m names g,
+  In (m, (names, g)) proto_schemas ->
+  wf_ty g = true /\ nums_distinct g = true /\ positions_ok g = true /\ nodup_s names = true.
+Proof. exact generated_schema_wf. Qed.
+Print Assumptions generated_schemas_well_formed.
+
+Theorem lookup_correct_at_generated_schemas : forall m names g,
+  In (m, (names, g)) proto_schemas ->
+  forall msg enums p, compile_path g p [] <> None -> lookup g msg enums p = get_root g msg p.
+Proof. exact lookup_correct_generated. Qed.
+Print Assumptions lookup_correct_at_generated_schemas.
+
+Theorem index_stable_at_generated_schemas : forall m names syn fs extra,
+  In (m, (names, TMsg syn fs extra)) proto_schemas ->
+  forall i f, nth_error (visible fs) i = Some f ->
+    index_of (fd_name f) (ct_names fs extra) = Some i /\ index_of (fd_name f) (ct_names fs []) = Some i.
+Proof. exact root_field_index_generated. Qed.
+Print Assumptions index_stable_at_generated_schemas.
+
+(* the real thing is not vacuous: test_proto2 and pe are among the schemas *)
+Example generated_schemas_present :
+  generated_schema "test_proto2" <> None /\ generated_schema "pe" <> None /\
+  List.length proto_schemas = 20%nat /\
+  lookup schema_test_proto2 (Some (VMsg [(22%N, VInt 7)])) false [SField (nm "test_proto2" "int64_one")] = RI 7 /\
+  compile_path schema_test_proto2 [SField (nm "test_proto2" "nested"); SField (nm "test_proto2" "nested_int64_one")] []
+    = Some [OLookup [44%nat; 3%nat]].
+Proof. vm_compute. repeat split; discriminate. Qed.
 
 Example c12_nonvacuous :
   let root := TMsg Proto2 [FD 1 7 false (TArr (TMsg Proto2 [FD 3 1 false (TInt U64)] []));
